@@ -119,6 +119,8 @@ func c15(c *Ctx) {
 		c.Stats["C15."+k+" sites"] = v
 	}
 	c15U1(c)
+	ruleNilMapField(c, "C15.P8", p.live())
+	ruleTypedNil(c, "C15.P9", p.live())
 }
 
 func c15Excepted(c *Ctx, rule, key string, pos string, fn *FuncInfo) bool {
